@@ -55,6 +55,9 @@ def plan(tier, seed):
         for arch in pat:
             for q in range(2):
                 items.append(dict(layer="grad", kind=kind, arch=arch, q=q, dev=0))
+    for kind in ("complex", "mixed"):
+        for N, ep, bd in ((3, 3, 1), (2, 2, None)) + (() if tier == "quick" else ((3, 3, 2), (4, 2, 1))):
+            items.append(dict(layer="fit-phase", kind=kind, N=N, epochs=ep, bound=bd))
     return items
 
 
@@ -304,8 +307,86 @@ def run_stateful(acc, kind, arch):
         check_case(acc, kind, arch, seq[i + 1], full=False, st=st, history=hist)
 
 
+def run_fit_phase(acc, kind, N, epochs, bound, only=None):
+    """'...in the same parameter order in which training writes gradients into the model': during a real multi-epoch
+    fit() with the whole dataset as one batch, the gradient found on every PHASE-network parameter after each
+    optimizer step (no sampling enters it) is the derivative of the dataset's NLL at the parameters the model had
+    when the batch started - in every epoch, under every decided shuffle / negative-batch draw (deviation-bounded)."""
+    from . import _fit as F
+    from ..engine import tape as T
+    from ..engine.env import Owned
+    L = lib()
+    rows, bstr = F.dataset(2, N, "distinct")
+    data = torch.tensor(rows, dtype=torch.double)
+    bases_arr = np.array([list(b) for b in bstr])
+    allb = G.all_bases(2, kind)
+    bidx = {b: j for j, b in enumerate(allb)}
+    sidx = [int("".join(str(int(x)) for x in r), 2) for r in rows]
+    flagged = set()
+
+    def body(tape):
+        st, arch, params = F.fresh_state(kind, 2)
+        snaps, grads = [], []
+        cb = L.callbacks.LambdaCallback(
+            on_batch_start=lambda s_, e, b: snaps.append(named_params(s_)),
+            on_batch_end=lambda s_, e, b: grads.append({NAME_MAP[n_]: (p_.grad.detach().numpy().copy() if p_.grad is not None else None) for n_, p_ in s_.rbm_ph.named_parameters()}))
+        dec = F.FitDecider(tape)
+        dec.small = True
+        try:
+            with Owned(dec):
+                call(st.fit, data, epochs=epochs, pos_batch_size=N, k=1, lr=0.3, input_bases=bases_arr, callbacks=[cb])
+        except LibRaised as e:
+            return [(f"gradient:fit-raised:{e.kind}", dict(error=str(e)))], 0
+        out = []
+        for step, (named, g) in enumerate(zip(snaps, grads)):
+            exp = []
+            for eps in ((0.0, 1e-8) if kind == "mixed" else (0.0,)):
+                leaves = G.make_leaves(named)
+                Lx, _ = G.loss_table(kind, 2, leaves, allb, eps=eps)
+                loss = sum(Lx[sidx[i], bidx[bstr[i]]] for i in range(N)) / N
+                exp.append(G.grad_named(loss, leaves))
+            obs = [{k: np.zeros_like(v) for k, v in exp[0][0].items()}, {k: (v if v is not None else np.full_like(exp[0][1][k], np.nan)) for k, v in g.items()}]
+            want = [obs[0], exp[0][1]]
+            e_, sc = ndiff(obs, want)
+            band = ndiff(want, [obs[0], exp[-1][1]])[0]
+            acc.err(max(0.0, (e_ - 1.000001 * band) / sc) if np.isfinite(e_) else 0)
+            if not (e_ <= TOL * sc + 1.000001 * band):
+                out.append(("gradient:written-into-phase-network-during-fit-differs-from-dataset-NLL-derivative", dict(step=step, epoch=step + 1, observed={k: v.tolist() for k, v in obs[1].items()}, expected={k: v.tolist() for k, v in want[1].items()})))
+                break
+        if len(snaps) != epochs or len(grads) != epochs:
+            out.append(("gradient:fit-did-not-run-one-full-batch-per-epoch", dict(batches=len(snaps), epochs=epochs)))
+        return out, len(snaps)
+
+    stats = T.Stats()
+    if only is not None:
+        tp = T.Tape(only, lenient=True)
+        res, n_ = body(tp)
+        acc.ev(1, nontrivial=True)
+        for sig, det in res:
+            acc.viol(sig, dict(layer="fit-phase", kind=kind, N=N, epochs=epochs, tape=list(tp.choices)), detail=det, tol=TOL)
+        return
+    for tp, (res, n_) in T.explore(body, bound=bound, stats=stats):
+        acc.ev(1, nontrivial=True)
+        acc.transitions += n_
+        acc.count("batch_gradients", n_)
+        if not res:
+            acc.traces += 1
+        for sig, det in res:
+            if sig not in flagged:
+                flagged.add(sig)
+                acc.viol(sig, dict(layer="fit-phase", kind=kind, N=N, epochs=epochs, tape=list(tp.choices)), detail=det, tol=TOL)
+            else:
+                acc.n_violations += 1
+        acc.outcome(sha([kind, N, tp.choices]))
+    acc.sample(dict(layer="fit-phase", kind=kind, N=N, epochs=epochs, deviation_bound=bound, executions=stats.executions, choice_points=stats.choice_points), cap=1)
+
+
 def run_item(item):
     acc = Acc()
+    if item["layer"] == "fit-phase":
+        run_fit_phase(acc, item["kind"], item["N"], item["epochs"], item["bound"])
+        acc.states = acc.evaluations
+        return acc
     if item["layer"] == "stateful":
         run_stateful(acc, item["kind"], item["arch"])
         acc.sample(dict(layer="stateful", kind=item["kind"], arch=item["arch"]), cap=1)
@@ -338,6 +419,9 @@ def run_item(item):
 
 def replay(case):
     acc = Acc()
+    if case.get("layer") == "fit-phase":
+        run_fit_phase(acc, case["kind"], case["N"], case["epochs"], None, only=case["tape"])
+        return acc
     if case.get("history"):
         run_stateful(acc, case["kind"], case["arch"])
         return acc
